@@ -812,6 +812,107 @@ func (sw *sweeper) guardedcall(a Analysis) {
 	sw.add(tag+"/site-exists", "guardedcall", "the guarded call site exists", n >= 1, "no call of "+callee+" in "+fnKey, token.NoPos)
 }
 
+// callorder: inside Func the calls of the functions listed in Order occur exactly once each and every later one is
+// dominated by the earlier one (pipeline order); optionally ("flows": [from, field, to, argIndex]) the argument
+// argIndex of the call of `to` is the field `field` of the result of the call of `from`.
+func (sw *sweeper) callorder(a Analysis) {
+	tag := "sweep/callorder:" + a.Name
+	fnKey, _ := a.Extra["func"].(string)
+	fn := sw.p.Lookup(fnKey)
+	if fn == nil {
+		sw.add(tag+"/func-exists", "callorder", "function exists", false, "no such function "+fnKey, token.NoPos)
+		return
+	}
+	var order []string
+	if l, ok := a.Extra["order"].([]interface{}); ok {
+		for _, x := range l {
+			if s, ok := x.(string); ok {
+				order = append(order, s)
+			}
+		}
+	}
+	sites := map[string][]*ssa.Call{}
+	for _, b := range fn.Blocks {
+		for _, ins := range b.Instrs {
+			if call, ok := ins.(*ssa.Call); ok {
+				if sc := call.Common().StaticCallee(); sc != nil {
+					sites[sw.key(sc)] = append(sites[sw.key(sc)], call)
+				}
+			}
+		}
+	}
+	dominates := func(x, y *ssa.Call) bool {
+		if x.Block() == y.Block() {
+			for _, ins := range x.Block().Instrs {
+				if ins == x {
+					return true
+				}
+				if ins == y {
+					return false
+				}
+			}
+		}
+		return x.Block().Dominates(y.Block())
+	}
+	for _, k := range order {
+		sw.add(tag+"/"+fnKey+"/one-call-of:"+k, "callorder", fnKey+" calls "+k+" exactly once", len(sites[k]) == 1, fmt.Sprintf("%d call sites", len(sites[k])), token.NoPos)
+	}
+	for i := 0; i+1 < len(order); i++ {
+		x, y := sites[order[i]], sites[order[i+1]]
+		ok := len(x) == 1 && len(y) == 1 && dominates(x[0], y[0])
+		sw.add(tag+"/"+fnKey+"/"+order[i]+"-before-"+order[i+1], "callorder", "every path to the call of "+order[i+1]+" has passed the call of "+order[i], ok, "not dominated", token.NoPos)
+	}
+	if fl, ok := a.Extra["flows"].([]interface{}); ok && len(fl) == 4 {
+		from, _ := fl[0].(string)
+		field, _ := fl[1].(string)
+		to, _ := fl[2].(string)
+		argf, _ := fl[3].(float64)
+		ok := false
+		if len(sites[from]) == 1 && len(sites[to]) == 1 && int(argf) < len(sites[to][0].Common().Args) {
+			arg := sites[to][0].Common().Args[int(argf)]
+			// arg must be (a load of) the field of the value returned by the `from` call
+			var isField func(v ssa.Value, depth int) bool
+			isField = func(v ssa.Value, depth int) bool {
+				if depth > 6 {
+					return false
+				}
+				switch x := v.(type) {
+				case *ssa.Field:
+					st, isSt := x.X.Type().Underlying().(*types.Struct)
+					return isSt && st.Field(x.Field).Name() == field && x.X == ssa.Value(sites[from][0])
+				case *ssa.UnOp:
+					if x.Op == token.MUL {
+						if fa, isFA := x.X.(*ssa.FieldAddr); isFA {
+							st := fa.X.Type().Underlying().(*types.Pointer).Elem().Underlying().(*types.Struct)
+							if st.Field(fa.Field).Name() != field {
+								return false
+							}
+							// the struct cell holds the call result (single store)
+							if al, isAl := fa.X.(*ssa.Alloc); isAl && al.Referrers() != nil {
+								n, good := 0, false
+								for _, r := range *al.Referrers() {
+									if st, isStore := r.(*ssa.Store); isStore && st.Addr == al {
+										n++
+										good = st.Val == ssa.Value(sites[from][0])
+									}
+								}
+								return n == 1 && good
+							}
+						}
+					}
+				case *ssa.ChangeType:
+					return isField(x.X, depth+1)
+				case *ssa.Convert:
+					return false
+				}
+				return false
+			}
+			ok = isField(arg, 0)
+		}
+		sw.add(tag+"/"+fnKey+"/"+to+"-gets-"+from+"."+field, "callorder", fmt.Sprintf("argument %d of %s is the %s computed by %s", int(argf), to, field, from), ok, "the argument is something else", token.NoPos)
+	}
+}
+
 // flowsOnlyInto: every use of v (through loads) is an argument of a call to one of the allowed functions.
 func (sw *sweeper) flowsOnlyInto(v ssa.Value, allowed map[string]bool, depth int) bool {
 	if depth > 6 || v.Referrers() == nil {
